@@ -1,6 +1,7 @@
 """C01 - entity handles are unique for the whole life of a world."""
 from ..alloc import ALLOC, CACHE, VEC_MUT, AllocModel
 from . import _alloc_rules
+from .. import affine
 
 ARMED = True
 TECHNIQUE = "value-origin (index provenance), pairing/dominance rules over the allocator's MIR (revive=>generation bump, truncate-before-mutate, kill folds pending raise)"
@@ -32,7 +33,8 @@ def run(ctx):
     for r, t in [("C01-R1", "index provenance: free list first, fresh counter only when the pop failed"),
                  ("C01-R2", "every revival bumps the generation of that index"),
                  ("C01-R3", "free list: truncate to the atomic length before mutating, resync after"),
-                 ("C01-R4", "an immediate kill folds the pending deferred raise before dying")]:
+                 ("C01-R4", "an immediate kill folds the pending deferred raise before dying"),
+                 ("C01-R5", "generation step function: die keeps the magnitude and makes it dead, revival yields a strictly larger live generation")]:
         ctx.rule(r, t)
     for cfg in configs(ctx.tier):
         facts = ctx.xfacts(cfg)
@@ -42,6 +44,7 @@ def run(ctx):
         r2(ctx, facts, model)
         r3(ctx, facts, model)
         r4(ctx, facts, model)
+        r5(ctx, facts, model)
 
 
 def occupy_sites(model, b):
@@ -238,3 +241,117 @@ def r4(ctx, facts, model):
                    "" if ok else "the index dies without first applying a pending deferred raise (per-index idiom: %s; bulk idiom: %s): the next "
                    "revival would hand out a generation that a deferred creation already returned" % (whyA, "raised.clear() dominating + loop raising every item" if clears else "no raised.clear()"))
     ctx.floor("C01-R4", "death sites with a generation slot", n, 2)
+
+
+GEN = "world::entity::Generation"
+ZGEN = "world::entity::ZeroableGeneration"
+
+
+def _fmt_form(f):
+    a, b = f[1], f[2]
+    return "%s%s" % ("" if a == 0 else ("x" if a == 1 else ("-x" if a == -1 else "%d*x" % a)), ("%+d" % b) if (b or a == 0) else "")
+
+
+def r5(ctx, facts, model):
+    """The generation counter as a piecewise-affine step function (sa/affine.py; nothing is run).  x = the integer a generation value
+    encodes (positive: alive, negative: dead, 0: never used).  Obligations, each for EVERY x of the stated domain:
+      live(x)  <=> x > 0                               (every self -> bool method of the two generation types)
+      die:     x > 0  =>  returns, new value y < 0 and |y| >= x
+      revive:  x <= 0 =>  result r > 0 and r > |x|     (raised / raise of both types; raise also stores r)
+    Together: the generation of an index strictly grows in magnitude from one life to the next, so no two lives of an index share a
+    generation - the arithmetic half of 'every revival bumps the generation' (R2 is the control-flow half)."""
+    allb = getattr(facts, "all_bodies", facts.bodies)
+    n_live = n_die = n_rev = 0
+    for b in allb:
+        if b.self_ty not in (GEN, ZGEN) or b.argc != 1 or b.kind == "Closure" or b.trait_item:
+            continue
+        kind = "zeroable" if b.self_ty == ZGEN else "nonzero"
+        rty, pty = b.ltype.get(0, ""), b.ltype.get(1, "")
+        role = None
+        if rty == "bool" and not pty.startswith("&mut"):
+            role = "live"
+        elif rty == "()" and pty.startswith("&mut"):
+            role = "die"
+        elif rty == GEN and pty.lstrip("&mut ").strip() in (GEN, ZGEN) and not b.path.endswith("::one"):
+            role = "revive"
+        if role is None:
+            continue
+        outs = affine.summarise(facts, b, kind)
+        key = "%s is a %s step" % (b.path, role)
+        bad, und = [], []
+        if role == "live":
+            n_live += 1
+            for o in outs:
+                if o.kind == "panic":
+                    continue
+                if o.kind == "top" or o.ret is None or o.ret == affine.TOP:
+                    und.append("x in %r: %s" % (o.iv, o.why or "result not understood")); continue
+                v = o.ret
+                if v[0] == "bool":
+                    pos = affine.refine(o.iv, "gt", 1, 0, 0)
+                    neg = affine.refine(o.iv, "le", 1, 0, 0)
+                    if v[1] and not neg.empty():
+                        bad.append("answers true for x in %r (a dead or unused generation)" % neg)
+                    if not v[1] and not pos.empty():
+                        bad.append("answers false for x in %r (a live generation)" % pos)
+                elif v[0] == "cmp":
+                    _, op, a, c0, c = v
+                    t_iv = affine.refine(o.iv, op, a, c0, c)
+                    f_iv = affine.refine(o.iv, affine.NEG[op], a, c0, c)
+                    t_bad = affine.refine(t_iv, "le", 1, 0, 0)
+                    f_bad = affine.refine(f_iv, "gt", 1, 0, 0)
+                    if not t_bad.empty():
+                        bad.append("answers true for x in %r" % t_bad)
+                    if not f_bad.empty():
+                        bad.append("answers false for x in %r" % f_bad)
+                else:
+                    und.append("x in %r: result %r" % (o.iv, v))
+        elif role == "die":
+            n_die += 1
+            for o in outs:
+                dom = affine.refine(o.iv, "gt", 1, 0, 0)
+                if dom.empty():
+                    continue
+                if o.kind == "panic":
+                    bad.append("panics for the live generations x in %r" % dom); continue
+                forms = affine.as_int_form(o.recv) if o.kind == "ret" else None
+                if not forms:
+                    und.append("x in %r: %s" % (dom, o.why or "stored value not understood")); continue
+                for _, f in forms:
+                    ok1, w1 = affine.holds_on(dom, f, "lt", affine.aff(0, 0))
+                    ok2, w2 = affine.holds_on(dom, f, "le", affine.aff(-1, 0))
+                    if not ok1:
+                        bad.append("stores y = %s, which is not dead (y < 0) at x = %s" % (_fmt_form(f), w1))
+                    elif not ok2:
+                        bad.append("stores y = %s, whose magnitude is below x at x = %s (a later revival can repeat a generation)" % (_fmt_form(f), w2))
+        else:
+            n_rev += 1
+            for o in outs:
+                dom = affine.refine(o.iv, "le", 1, 0, 0)
+                if dom.empty():
+                    continue
+                if o.kind == "panic":
+                    und.append("panics for the dead generations x in %r (%s)" % (dom, o.why)); continue
+                forms = affine.as_int_form(o.ret) if o.kind == "ret" else None
+                if not forms:
+                    und.append("x in %r: %s" % (dom, o.why or "result not understood")); continue
+                for _, f in forms:
+                    ok1, w1 = affine.holds_on(dom, f, "gt", affine.aff(0, 0))
+                    ok2, w2 = affine.holds_on(dom, f, "gt", affine.aff(-1, 0))
+                    if not ok1:
+                        bad.append("returns r = %s, not a live generation (r > 0) at x = %s" % (_fmt_form(f), w1))
+                    elif not ok2:
+                        bad.append("returns r = %s, not larger than the dead generation's magnitude at x = %s: a handle of this index can be issued twice" % (_fmt_form(f), w2))
+                if pty.startswith("&mut"):
+                    st = affine.as_int_form(o.recv)
+                    if not st:
+                        und.append("x in %r: stored value not understood" % dom)
+                    elif [f for _, f in st] != [f for _, f in forms]:
+                        bad.append("stores %s but returns %s" % (", ".join(_fmt_form(f) for _, f in st), ", ".join(_fmt_form(f) for _, f in forms)))
+        verdict = False if bad else ("undetermined" if und else True)
+        summ = "; ".join("x in %r -> %s" % (o.iv, "panic" if o.kind == "panic" else ("?" if o.kind == "top" else
+               (_fmt_form(affine.as_int_form(o.recv if role == "die" else o.ret)[0][1]) if affine.as_int_form(o.recv if role == "die" else o.ret) else repr(o.ret)))) for o in outs)
+        ctx.ob("C01-R5", key, verdict, b.loc(), ("; ".join(bad or und)) + ("   [summary: %s]" % summ if (bad or und) else ""))
+    ctx.floor("C01-R5", "generation liveness predicates", n_live, 2)
+    ctx.floor("C01-R5", "generation kill steps", n_die, 1)
+    ctx.floor("C01-R5", "generation revival steps", n_rev, 3)
